@@ -369,7 +369,23 @@ def build(ctx):
     ctx.attempt("molecule.Molecule.from_sdf_dict/ensures/roundtrip_2atoms/title_empty", lambda: ob_sdf_text(""), replay=title_replay(""), fn=f_fromsdf)
     ctx.attempt("molecule.Molecule.from_sdf_dict/ensures/roundtrip_2atoms/title_blank_padded", lambda: ob_sdf_text("  my mol "), replay=title_replay("  my mol "), fn=f_fromsdf)
 
+    engine_guard(ctx, I, f_atomline, f_bondline, f_counts, f_pcounts, f_patoms, f_pbonds, f_pxyz)
     ground_and_bounded(ctx)
+
+
+def engine_guard(ctx, I, f_atomline, f_bondline, f_counts, f_pcounts, f_patoms, f_pbonds, f_pxyz):
+    """CPython cross-check of the symbolic executor on the line writers / readers (concrete arguments, one path, same value)."""
+    from pyvc.crosscheck import crosscheck
+    import chmpy.fmt.sdf as sdf
+    import chmpy.fmt.xyz_file as xyz
+    crosscheck(ctx, I, f_atomline, sdf.to_atom_line, [(1.5, -2.25, 0.125, None, "C"), (-1234.5678, 0.0, 99.9999, None, "Cl"), (0.00004, -0.00005, 2.0, None, "H"), (1e4, 1e-5, -9999.99995, None, "Xe")])
+    crosscheck(ctx, I, f_bondline, sdf.to_bond_line, [(1, 2, 1), (12, 7, 2, 0), (999, 1, 3), (0, 0, 0)])
+    crosscheck(ctx, I, f_counts, sdf.to_counts_line, [(3, 2), (0, 0), (999, 999), (12, 0, 1)])
+    lines = [sdf.to_atom_line(1.5, -2.25, 0.125, None, "C"), sdf.to_atom_line(-1234.5678, 0.0, 99.9999, None, "Cl"), sdf.to_atom_line(0.0, 0.0, 0.0, None, "H")]
+    crosscheck(ctx, I, f_patoms, lambda ls: dict(sdf.parse_atom_lines(ls)), [(lines,), (lines[:1],), ([],)])
+    crosscheck(ctx, I, f_pbonds, lambda ls: dict(sdf.parse_bond_lines(ls)), [([sdf.to_bond_line(1, 2, 1), sdf.to_bond_line(12, 7, 2)],), ([],)])
+    crosscheck(ctx, I, f_pcounts, sdf.parse_counts_line, [(sdf.to_counts_line(3, 2),), (sdf.to_counts_line(120, 238),), (sdf.to_counts_line(0, 0),)])
+    crosscheck(ctx, I, f_pxyz, lambda t: xyz.parse_xyz_string(t), [("2\ncomment\nO 0.0 0.0 0.0\nH 0.96 0.0 -1.5\n",), ("1\n\nCl 1e-3 2.5 -3\n",)])
 
 
 def ground_and_bounded(ctx):
